@@ -292,6 +292,7 @@ namespace
             sigemptyset(&sa.sa_mask);
             sigaction(SIGSEGV, &sa, nullptr);
             sigaction(SIGBUS, &sa, nullptr);
+            sigaction(SIGABRT, &sa, nullptr); // xsimd's own assert(is_aligned(..)) in debug builds: an event of the op, not the death of the worker
         }
         void configure(const sim::Params& p)
         {
@@ -832,7 +833,9 @@ namespace
                     bool is_write = (g_fault.err >> 1) & 1;
                     long rel = (long)a - (long)(uintptr_t)wptr;
                     std::string cls;
-                    if (a < (uintptr_t)g_mem.base || a >= (uintptr_t)g_mem.base + 5 * PAGE)
+                    if (g_fault.sig == SIGABRT)
+                        cls = sim::fmt("C04/assertion-abort(%s)", e.form); // the library's own assert fired on a pointer the contract allows
+                    else if (a < (uintptr_t)g_mem.base || a >= (uintptr_t)g_mem.base + 5 * PAGE)
                         cls = sim::fmt("C04/misaligned-trap(%s)", e.form); // #GP: si_addr is 0 for an alignment fault of an aligned instruction
                     else if (hole && a >= (uintptr_t)g_mem.data + PAGE && a < (uintptr_t)g_mem.data + 2 * PAGE)
                         cls = sim::fmt("C04/%s-outside(%s,between-indexed-elements)", is_write ? "write" : "read", e.form);
@@ -840,7 +843,10 @@ namespace
                         cls = sim::fmt("C04/%s-outside(%s,before)", is_write ? "write" : "read", e.form);
                     else
                         cls = sim::fmt("C04/%s-outside(%s,after)", is_write ? "write" : "read", e.form);
-                    out.violate(cls, sim::fmt("%s: MMU fault at window%+ld (%s)", where.c_str(), rel, is_write ? "write" : "read"));
+                    if (g_fault.sig == SIGABRT)
+                        out.violate(cls, sim::fmt("%s: abort() (assertion failure) inside the call", where.c_str()));
+                    else
+                        out.violate(cls, sim::fmt("%s: MMU fault at window%+ld (%s)", where.c_str(), rel, is_write ? "write" : "read"));
                     log.rec("fault", op.entry % table.size(), (uint64_t)rel, is_write);
                     // a store may have been half done: resynchronise the arena with the model
                     memcpy(g_mem.data, g_mem.shadow, DATA);
